@@ -4,6 +4,7 @@ import (
 	"context"
 	"encoding/json"
 	"fmt"
+	"math/big"
 	"strings"
 
 	"github.com/herohde/morlock/pkg/board"
@@ -38,6 +39,15 @@ func init() {
 
 // decodeTotal is the oracle for one FEN string: no panic; error or a non-nil, self-consistent
 // position whose re-encoding decodes to the same position.
+func isDigits(s string) bool {
+	for _, r := range s {
+		if r < '0' || r > '9' {
+			return false
+		}
+	}
+	return s != ""
+}
+
 func decodeTotal(s string) (msg string) {
 	defer func() {
 		if r := recover(); r != nil {
@@ -56,6 +66,14 @@ func decodeTotal(s string) (msg string) {
 	}
 	if np < 0 || fm < 0 {
 		return "accepted with a negative clock"
+	}
+	// a counter written as a plain decimal number is that number (never wrapped or truncated)
+	if f := strings.Fields(s); len(f) == 6 {
+		for i, got := range []int{np, fm} {
+			if v, ok := new(big.Int).SetString(f[4+i], 10); ok && isDigits(f[4+i]) && (!v.IsInt64() || v.Int64() != int64(got)) {
+				return fmt.Sprintf("accepted, counter %q read as %d", f[4+i], got)
+			}
+		}
 	}
 	// self-consistency of the views
 	var all board.Bitboard
@@ -272,6 +290,20 @@ func checkC19(c *harness.Check) {
 							tryFEN(strings.Join([]string{b, s, r, e, hm, fm}, " "))
 						}
 					}
+				}
+			}
+		}
+	}
+	// both counters over the boundaries of every integer width a parser or a counter might use
+	// (a value that is accepted must come back as itself, never wrapped or truncated), and over
+	// other ways of writing a number
+	wide := []string{"0", "1", "100", "101", "127", "128", "255", "256", "32767", "32768", "65535", "65536", "2147483647", "2147483648", "4294967295", "4294967296",
+		"9223372036854775807", "9223372036854775808", "18446744073709551615", "18446744073709551616", "-0", "00", "007", "1e3", "1_000", "\uff11", "-9223372036854775808", "0b1", "0o7"}
+	for _, b := range boards[1:] {
+		for _, e := range []string{"-", "d6"} {
+			for _, hm := range wide {
+				for _, fm := range wide {
+					tryFEN(strings.Join([]string{b, "w", "-", e, hm, fm}, " "))
 				}
 			}
 		}
